@@ -212,6 +212,9 @@ def real_write(c, tmp):
         return f.read(), None
 
 
+real_write = common.with_history(real_write)
+
+
 def real_read(text, n, nmaxs, tmp):
     """successive read_neighbors calls on one open handle; returns (tables|error strings, remaining line count)"""
     from PyMatterSim.neighbors.read_neighbors import read_neighbors
@@ -662,11 +665,18 @@ def failing_big(c):
 
 # ----------------------------------------------------------------------------- pipeline entry points
 
+def sibling(rng, c):
+    """same cell, mask, particle number, frame count, mode and parameters — every position moved a little"""
+    if c.get("style") == "dyadic" or c.get("big") or "pos" not in c:
+        return None
+    return dict(c, pos=[common.jitter_positions(rng, fr, 0.2, 3) for fr in c["pos"]], style="random")
+
+
 def correspond(run):
-    n = 400 if run.tier == "quick" else 12000
-    nf = 150 if run.tier == "quick" else 4000
+    n = 900 if run.tier == "quick" else 12000
+    nf = 300 if run.tier == "quick" else 4000
     cases = common.load_corpus(PROP)
-    cases += [gen_case(run.rng) for _ in range(n)] + [gen_file_case(run.rng) for _ in range(nf)]
+    cases += common.add_siblings(run.rng, [gen_case(run.rng) for _ in range(n)], sibling, every=5) + [gen_file_case(run.rng) for _ in range(nf)]
     dis, sf = run_cases(run, cases)
     run.coverage["traces_validated_against_impl"] = run.coverage["evaluations"]
     broken = []
